@@ -1,6 +1,8 @@
 (* C19 — Saving and reloading a cache reproduces its live contents and deadlines.
-   Model: Persist.v — LoadCacheFrom's per-entry program over the concrete cache model. *)
-From Otter Require Import Base Seq Spec SeqRefine SeqFacts Persist.
+   Model: Persist.v — LoadCacheFrom's per-entry program over the concrete cache model;
+   PersistAll.v — the loops of SaveCacheTo and LoadCacheFrom around it, with their size cut-off.
+   gob is the identity on entries (the seq engine round-trips every case through the real encoder). *)
+From Otter Require Import Base Seq Spec SeqRefine SeqFacts Persist PersistAll.
 
 (* an entry not expired at load time is loaded with its key, value and saved expiration deadline,
    for any number of warm-up reads and any read calculator (access-reset included) *)
@@ -15,6 +17,47 @@ Theorem C19_nothing_expired_loaded : forall c s e reads now,
   with_exp c = true -> sv_exp e <= now -> load_entry c s e reads now = s.
 Proof. exact load_entry_skips_expired. Qed.
 Print Assumptions C19_nothing_expired_loaded.
+
+(* the whole file: every entry the loading loop takes (not expired at load time, not cut off) is present
+   afterwards with its key, value and saved deadline, whatever was loaded before and after it *)
+Theorem C19_file_roundtrip : forall c, cfg_ok c -> forall maxi reads now,
+  with_exp c = true -> time_ok now ->
+  forall es s size e,
+  NoDup (map sv_key es) -> (forall k, In k (map sv_key es) -> lookup k (cmap s) = None) ->
+  In e (taken c maxi size es now) -> sv_exp e < MaxInt64 ->
+  exists n, lookup (sv_key e) (cmap (load_all c maxi reads s size es now)) = Some n /\ nval n = sv_val e /\ nexp n = sv_exp e.
+Proof. intros c CO. exact (load_all_present c CO). Qed.
+Print Assumptions C19_file_roundtrip.
+
+(* nothing that was absent is loaded: keys that are not in the file are untouched, and the loop takes only
+   entries of the file *)
+Theorem C19_nothing_absent_loaded : forall c maxi reads now es s size k,
+  ~ In k (map sv_key es) -> lookup k (cmap (load_all c maxi reads s size es now)) = lookup k (cmap s).
+Proof. intros. apply load_all_frame. assumption. Qed.
+Print Assumptions C19_nothing_absent_loaded.
+
+Theorem C19_taken_from_file : forall c maxi now es size e, In e (taken c maxi size es now) -> In e es.
+Proof. exact taken_incl. Qed.
+Print Assumptions C19_taken_from_file.
+
+(* everything is loaded (and was saved) when the contents fit the maximum; pinned entries are never cut off *)
+Theorem C19_all_loaded_when_fits : forall c maxi now es size,
+  (forall e, In e es -> 0 <= sv_weight e) ->
+  size + fold_right (fun e acc => sv_weight e + acc) 0 es <= maxi ->
+  taken c maxi size es now = filter (fun e => negb (with_exp c && (sv_exp e <=? now))) es.
+Proof. exact taken_all_when_fits. Qed.
+Print Assumptions C19_all_loaded_when_fits.
+
+Theorem C19_all_saved_when_fits : forall maxi hot size,
+  (forall e, In e hot -> 0 <= sv_weight e) ->
+  size + fold_right (fun e acc => sv_weight e + acc) 0 hot <= maxi ->
+  save_list maxi size hot = hot.
+Proof. exact save_list_all_when_fits. Qed.
+Print Assumptions C19_all_saved_when_fits.
+
+Theorem C19_pinned_always_saved : forall maxi hot size e, In e hot -> sv_weight e = 0 -> In e (save_list maxi size hot).
+Proof. exact save_list_keeps_pinned. Qed.
+Print Assumptions C19_pinned_always_saved.
 
 Example C19_nonvacuous :
   let c := mkCfg true true false false (fun _ _ => 1) (fun _ _ _ => 100) (fun _ _ _ _ => 100) (fun _ _ _ => 100)
